@@ -183,6 +183,10 @@ def check_slab_test(ctx, prog, rule="c13.slab"):
             bad.append("box %s, t_enter %s t_leave -> %s" % ("behind the origin" if behind else "ahead", ">" if crossed else "<=", "hit" if hit else "miss"))
         elif hit and not nz.code(strip(r[3][0])).equals(tenter):
             bad.append("a hit is reported at %s instead of t_enter" % str(nz.code(strip(r[3][0])))[:80])
+    helper_calls = [nm for nm in re.findall(r"([A-Za-z_][\w:]*)\(", undecided[0]) if nm.split("::")[-1] not in ("min", "max", "abs", "index", "deref", "clone", "as_ref", "borrow")] if undecided else []
+    if undecided and helper_calls:
+        # the test goes through a helper of the workspace this rule does not read (per-axis crossing computed elsewhere): cannot decide
+        raise AnalysisError("AABB::intersects branches on %s: written through helpers this rule cannot read" % undecided[0][:160])
     if undecided:
         # the tests of the function are not the two questions of the slab method on the quantities of the reference
         ctx.violation(rule, rule + "|AABB::intersects", "the box test branches on %s, which is neither `t_leave < 0` nor `t_enter > t_leave` with t_enter = max_axes min(t_lo, t_hi) and "
@@ -281,7 +285,19 @@ def run(ctx):
         if (callee_name(t) or "").endswith("partition_elements_by_centroid"):
             npart += 1
             conds = [(strip(nn), tk) for (_, d, nn, tk) in sc.conditions(b)]
-            ok = any(nn[0] == "bin" and nn[1] == "Gt" and "len(" in show(nn) and tk == "else:0" for nn, tk in conds)
+            from ..cfgq import bool_taken
+
+            def implies_more_than_max(nn, tk):
+                """`len > max` taken, or `len <= max` not taken (an early return for small lists), with len on either side"""
+                if nn[0] != "bin" or nn[1] not in ("Gt", "Le", "Lt", "Ge") or "len(" not in show(nn):
+                    return False
+                v = bool_taken(tk)
+                if v is None:
+                    return False
+                len_left = "len(" in show(strip(nn[2]))
+                op = nn[1] if len_left else {"Gt": "Lt", "Lt": "Gt", "Le": "Ge", "Ge": "Le"}[nn[1]]
+                return (op == "Gt" and v is True) or (op == "Le" and v is False)
+            ok = any(implies_more_than_max(nn, tk) for nn, tk in conds)
             key = "c13.loop|partition-call|%d" % npart
             if ok:
                 ctx.ok("c13.loop", key, "partition is called only with more than max_num_elements elements", gen.loc(t.get("ln")))
